@@ -72,7 +72,8 @@ theorem allPositions_spec (reg : Registry) (f : String) (l c : Nat) :
 statement of a loaded module that its class names (`Names`): the `uses` statement of an unknown
 grouping, the `ordered-by` / `max-elements` / `min-elements` statement with the bad value, the
 statement holding a bad `config` / `mandatory`, and — as far as the plugged type layer keeps the
-discipline — the `type`, `range` or `length` statement. -/
+discipline (`plugFull` does: `plugFull_keeps_positions`) — the `type`, `range`, `length`, `enum` or
+`bit` statement. -/
 theorem semantic_positions_name_the_statement (reg : Registry) (opts : Opts) (plug : Plug)
     (hplug : PlugPositionsAt Names reg plug) :
     ∀ e ∈ (processAll reg opts plug).errors, Positioned e → ∃ s, StmtOf reg s ∧ At e s ∧ Names e.cls s :=
@@ -112,7 +113,7 @@ theorem type_error_position (reg : Registry) (opts : Opts) (plug : Plug)
     ((e.cls = "unknown-type" ∨ e.cls = "unknown-prefix") → ∃ s, StmtOf reg s ∧ At e s ∧ s.kw = "type") ∧
     (e.cls = "bad-range" → ∃ s, StmtOf reg s ∧ At e s ∧ s.kw = "range") ∧
     ((e.cls = "bad-length" ∨ e.cls = "negative-length") → ∃ s, StmtOf reg s ∧ At e s ∧ s.kw = "length") := by
-  obtain ⟨s, h1, h2, _, _, _, _, _, k6, k7, k8, k9, k10⟩ := semantic_positions_name_the_statement reg opts plug hplug e he hp
+  obtain ⟨s, h1, h2, _, _, _, _, _, k6, k7, k8, k9, k10, _⟩ := semantic_positions_name_the_statement reg opts plug hplug e he hp
   refine ⟨?_, fun hc => ⟨s, h1, h2, k8 hc⟩, ?_⟩
   · rintro (hc | hc)
     · exact ⟨s, h1, h2, k6 hc⟩
@@ -120,6 +121,14 @@ theorem type_error_position (reg : Registry) (opts : Opts) (plug : Plug)
   · rintro (hc | hc)
     · exact ⟨s, h1, h2, k9 hc⟩
     · exact ⟨s, h1, h2, k10 hc⟩
+
+/-- A rejected enum or bit member (duplicate name, duplicate / too small / too large value, no
+value left) ⇒ that `enum` / `bit` statement. -/
+theorem enum_error_position (reg : Registry) (opts : Opts) (plug : Plug)
+    (hplug : PlugPositionsAt Names reg plug) (e : Err) (he : e ∈ (processAll reg opts plug).errors)
+    (hp : Positioned e) (hc : e.cls ∈ enumClasses) : ∃ s, StmtOf reg s ∧ At e s ∧ (s.kw = "enum" ∨ s.kw = "bit") := by
+  obtain ⟨s, h1, h2, h3⟩ := semantic_positions_name_the_statement reg opts plug hplug e he hp
+  exact ⟨s, h1, h2, h3.2.2.2.2.2.2.2.2.2.2 hc⟩
 
 /-! ### the sites themselves (no assumption on the plugged layers) -/
 
@@ -163,7 +172,7 @@ theorem list_attribute_errors_at_substatement (s : Stmt) : ∀ x ∈ (listAttrOf
 
 /-- The type, typedef and identity layers of the pipeline only report statements of loaded
 modules: unknown type name or prefix ⇒ the `type` statement; bad range / length ⇒ the `range` /
-`length` statement; bad enum or bit member ⇒ that `enum` / `bit` statement; a typedef without
+`length` statement; rejected enum or bit member ⇒ that `enum` / `bit` statement; a typedef without
 usable type ⇒ the `typedef`; identity errors ⇒ the module statement, the `belongs-to` statement or
 the `identity` statement. -/
 theorem plugFull_keeps_positions (reg : Registry) : PlugPositionsAt Names reg (plugFull reg) :=
